@@ -1,5 +1,6 @@
 SPECIFICATION MCSpec
 CONSTANTS
+  SpuriousPass = FALSE
   AllSchedules = FALSE
   PermuteModules = TRUE
   NB0 = {0, 1, 2}
